@@ -107,10 +107,15 @@ lookup_glyph (pixman_glyph_cache_t *cache,
 	      void                 *glyph_key)
 {
     unsigned idx;
+    unsigned n_probes = HASH_SIZE;
     glyph_t *g;
 
+    /* The table can be completely occupied by glyphs and tombstones
+     * (insertion is only refused at HASH_SIZE glyphs), so an empty slot
+     * is not guaranteed to end the probe sequence: bound it.
+     */
     idx = hash (font_key, glyph_key);
-    while ((g = cache->glyphs[idx++ & HASH_MASK]))
+    while (n_probes-- && (g = cache->glyphs[idx++ & HASH_MASK]))
     {
 	if (g != TOMBSTONE			&&
 	    g->font_key == font_key		&&
